@@ -156,4 +156,25 @@ def sendV2 (loop : Nat → Nat → List Poll → Bool) (v : Version) (self : Add
     | .panic p => { outcome := .panic p, sent := none }
     | .ok np => rawSendV2 loop v self np.seqno np.init nMsgs sc wait
 
+/-- A blockchain implementation that honours `ctx`: once the context is cancelled every call returns `ctx.Err()`.
+`cancelAt = some k` cancels the context before the k-th call of the send (call 0 = GetAccountState, call 1 =
+SendMessage, call 2 + i = the i-th GetSeqno poll). The wallet code itself never looks at the context, so cancellation
+is visible to it only as these errors: in particular the confirmation loop keeps polling until the deadline. -/
+def cancelFrom : Nat → List Poll → List Poll
+  | 0, ps => ps.map fun p => { p with err := true }
+  | _ + 1, [] => []
+  | j + 1, p :: ps => p :: cancelFrom j ps
+
+def Script.cancelled (sc : Script) : Option Nat → Script
+  | none => sc
+  | some k =>
+    { acct := if k = 0 then .err "context canceled" else sc.acct,
+      sendErr := sc.sendErr || decide (k ≤ 1),
+      polls := cancelFrom (k - 2) sc.polls }
+
+/-- SendV2 under a context cancelled before call `k` -/
+def sendV2Ctx (loop : Nat → Nat → List Poll → Bool) (v : Version) (self : Address) (nMsgs : Nat) (sc : Script) (wait : Nat)
+    (cancelAt : Option Nat) : SendResult :=
+  sendV2 loop v self nMsgs (sc.cancelled cancelAt) wait
+
 end Tongo.Wallet
